@@ -1,29 +1,33 @@
 import PlumVerif.Spec.C09
 import PlumVerif.Proofs.Pool
+import PlumVerif.Props.C02
+import PlumVerif.Props.C03
 /-
 C09 — no received frame stalls the pipeline; controller requests are always answered.
 Property theorems only; the machine is Model/Pool.lean, the invariant Proofs/Pool.lean.
 
 Every theorem about the contained machine (`run true`, the code as it is now) holds for EVERY
-number `n` of consumer tasks, EVERY schedule `ms : List Mv` — which fixes both the sequence of
-received frames (`arrivals ms`: any mix of valid data frames, controller requests and frames
-whose handling raises, in any order and number, in particular more raising frames than
-consumers) and the interleaving of the consumers' moves with the arrivals.
+number `n` of consumer tasks, EVERY configuration `cfg` and EVERY schedule `ms : List Mv` —
+which fixes both the sequence of received frames (`arrivals ms`: any mix of valid data frames,
+controller requests and frames whose handling raises, in any order and number, in particular
+more raising frames than consumers) and the interleaving of the consumers' moves with the
+arrivals.
 -/
 namespace PlumVerif.C09
 open PlumVerif PlumVerif.Pool
 
-/-- the frame codes of the statement are those of the repository's frame table -/
+/-- the frame codes / addresses of the statement are those of the repository's tables -/
 theorem codes :
     Gen.frameTypes.lookup "REQUEST_PROGRAM_VERSION" = some 64 ∧
     Gen.frameTypes.lookup "REQUEST_CHECK_DEVICE" = some 48 ∧
-    RKind.code .programVersion = 192 ∧ RKind.code .deviceAvailable = 176 ∧
-    Gen.deviceTypes.lookup "ECOMAX" = some 69 := by decide
+    frameCode "RESPONSE_PROGRAM_VERSION" = 192 ∧ frameCode "RESPONSE_DEVICE_AVAILABLE" = 176 ∧
+    Gen.deviceTypes.lookup "ECOMAX" = some 69 ∧ ownAddress = 86 ∧
+    Gen.econetType = 48 ∧ Gen.econetVersion = 5 := by decide
 
 /-- **conservation**: at every moment no consumer has died, the unfinished counter is exactly
 the number of frames queued or in hand, and the frames finished, in hand and queued are —
 as a multiset — exactly the frames received: nothing is lost, nothing is duplicated. -/
-theorem conservation (n cfg : Nat) (ms : List Mv) :
+theorem conservation (n : Nat) (cfg : Cfg) (ms : List Mv) :
     let s := run true cfg (init n) ms
     s.alive = n ∧ s.unfinished = s.queue.length + s.inHand.length ∧ s.inHand.length ≤ n ∧
       (s.finished ++ s.inHand ++ s.queue).Perm (arrivals ms) := by
@@ -32,79 +36,125 @@ theorem conservation (n cfg : Nat) (ms : List Mv) :
   exact ⟨h.alive, h.bal, h.cap, h.perm⟩
 
 /-- no consumer dies — whatever is received, including more raising frames than consumers -/
-theorem no_consumer_dies (n cfg : Nat) (ms : List Mv) : (run true cfg (init n) ms).alive = n :=
+theorem no_consumer_dies (n : Nat) (cfg : Cfg) (ms : List Mv) : (run true cfg (init n) ms).alive = n :=
   (conservation n cfg ms).1
 
-theorem finished_perm {n cfg : Nat} {ms : List Mv} (hq : quiescent (run true cfg (init n) ms) = true) :
+theorem finished_perm {n : Nat} {cfg : Cfg} {ms : List Mv} (hq : quiescent (run true cfg (init n) ms) = true) :
     (run true cfg (init n) ms).finished.Perm (arrivals ms) := by
   obtain ⟨_, _, _, hp⟩ := conservation n cfg ms
   simp only [quiescent, Bool.and_eq_true, List.isEmpty_iff] at hq
   simpa [hq.1, hq.2] using hp
 
 /-- **delivered exactly once**: at quiescence the frames handed to their device are — as a
-multiset — exactly the received frames whose handling does not raise. -/
-theorem delivered_exactly_once (n cfg : Nat) (ms : List Mv)
+multiset — exactly the received frames whose handling does not raise (`ok`). -/
+theorem delivered_exactly_once (n : Nat) (cfg : Cfg) (ms : List Mv)
     (hq : quiescent (run true cfg (init n) ms) = true) :
-    (run true cfg (init n) ms).delivered.Perm (((arrivals ms).filter ok).map (·.id)) := by
+    (run true cfg (init n) ms).delivered.Perm (((arrivals ms).filter (ok cfg)).map (·.id)) := by
   have h := inv_run n cfg [] (init n) ms (inv_init n cfg)
   rw [h.deliv]
-  exact ((finished_perm hq).filter ok).map _
+  exact ((finished_perm hq).filter (ok cfg)).map _
 
-/-- … so with distinct frame ids each non-raising frame is delivered exactly once and each
-raising frame never -/
-theorem delivered_count (n cfg : Nat) (ms : List Mv)
+/-- … so with distinct frame ids each frame whose handling does not raise is delivered exactly
+once and each raising frame never -/
+theorem delivered_count (n : Nat) (cfg : Cfg) (ms : List Mv)
     (hq : quiescent (run true cfg (init n) ms) = true)
     (hid : ((arrivals ms).map (·.id)).Nodup) (f : Frame) (hf : f ∈ arrivals ms) :
-    (run true cfg (init n) ms).delivered.count f.id = if f.raises then 0 else 1 := by
+    (run true cfg (init n) ms).delivered.count f.id = if ok cfg f then 1 else 0 := by
   rw [(delivered_exactly_once n cfg ms hq).count_eq]
-  have hnd : (((arrivals ms).filter ok).map (·.id)).Nodup :=
+  have hnd : (((arrivals ms).filter (ok cfg)).map (·.id)).Nodup :=
     (List.filter_sublist.map _).nodup hid
   rw [hnd.count]
-  cases hr : f.raises with
-  | false =>
-    have : f.id ∈ ((arrivals ms).filter ok).map (·.id) :=
-      List.mem_map.mpr ⟨f, List.mem_filter.mpr ⟨hf, by simp [ok, hr]⟩, rfl⟩
-    simp [this]
+  cases hr : ok cfg f with
   | true =>
-    have : f.id ∉ ((arrivals ms).filter ok).map (·.id) := by
+    have : f.id ∈ ((arrivals ms).filter (ok cfg)).map (·.id) :=
+      List.mem_map.mpr ⟨f, List.mem_filter.mpr ⟨hf, hr⟩, rfl⟩
+    simp [this]
+  | false =>
+    have : f.id ∉ ((arrivals ms).filter (ok cfg)).map (·.id) := by
       intro hmem
       obtain ⟨g, hg, hgi⟩ := List.mem_map.mp hmem
       obtain ⟨hg1, hg2⟩ := List.mem_filter.mp hg
-      -- g and f share an id, ids are distinct, so g = f, but g does not raise
       have : g = f := eq_of_id_eq hid hf hg1 hgi
       subst this
-      simp [ok, hr] at hg2
+      rw [hr] at hg2; cases hg2
     simp [this]
 
-/-- what an automatic reply looks like: only a program-version / check-device request from
-the controller is answered, with the matching kind, addressed to the requester, and the
-device-available reply carries the configured network information -/
-theorem reply_matches (cfg : Nat) (f : Frame) (r : Resp) (h : respOf cfg f = some r) :
-    f.controller = true ∧ r.rcpt = f.sender ∧
-      ((f.cls = .pvReq ∧ r.kind = .programVersion) ∨
-       (f.cls = .cdReq ∧ r.kind = .deviceAvailable ∧ r.net = cfg)) := by
-  unfold respOf at h
-  split at h
-  · rename_i hc
-    split at h
-    · cases h; exact ⟨hc, rfl, .inl ⟨by assumption, rfl⟩⟩
-    · cases h; exact ⟨hc, rfl, .inr ⟨by assumption, rfl, rfl⟩⟩
-    · cases h
-  · cases h
+/-- a data frame (or any frame not handled as a request by the controller's device) raises
+exactly when its input bit says so -/
+theorem ok_data (cfg : Cfg) (f : Frame) (h : f.cls = .data) : ok cfg f = !f.raises := by
+  unfold ok handle
+  cases f.controller <;> cases hr : f.raises <;> simp [h, hr]
+
+/-- **reply bytes (check device)**: the frame queued for a check-device request from the
+controller (sender `s`) is exactly `⟨176, s, 86, 48, 5, Net.encode (configured network info)⟩`,
+i.e. on the wire the bytes `encode` of it (C02.envelope / C02.net_layout describe those bytes) -/
+theorem reply_bytes_check_device (cfg : Cfg) (f : Frame) (m : List Byte)
+    (hc : f.controller = true) (hk : f.cls = .cdReq) (hm : Net.encode cfg.net = some m) :
+    handle cfg f = .done [⟨176, f.sender, 86, 48, 5, m⟩] ∧
+      (repliesOf cfg f).map encode = [encode ⟨176, f.sender, 86, 48, 5, m⟩] := by
+  have h1 : handle cfg f = .done [⟨176, f.sender, 86, 48, 5, m⟩] := by
+    have c := codes
+    simp only [handle, hc, hk, replyOf, hm, replyFrame, c.2.2.2.1, c.2.2.2.2.2.1, c.2.2.2.2.2.2.1, c.2.2.2.2.2.2.2]
+    rfl
+  exact ⟨h1, by simp [repliesOf, h1]⟩
+
+/-- **reply bytes (program version)**: … and for a program-version request it is
+`⟨192, s, 86, 48, 5, Version.encode (version info) 86⟩` (C02.version_layout) -/
+theorem reply_bytes_program_version (cfg : Cfg) (f : Frame) (m : List Byte)
+    (hc : f.controller = true) (hk : f.cls = .pvReq) (hm : Version.encode cfg.ver 86 = some m) :
+    handle cfg f = .done [⟨192, f.sender, 86, 48, 5, m⟩] ∧
+      (repliesOf cfg f).map encode = [encode ⟨192, f.sender, 86, 48, 5, m⟩] := by
+  have h1 : handle cfg f = .done [⟨192, f.sender, 86, 48, 5, m⟩] := by
+    have c := codes
+    simp only [handle, hc, hk, replyOf, replyFrame, c.2.2.1, c.2.2.2.2.2.1, c.2.2.2.2.2.2.1, c.2.2.2.2.2.2.2]
+    rw [show (86 : UInt8).toNat = 86 from rfl, hm]
+    rfl
+  exact ⟨h1, by simp [repliesOf, h1]⟩
+
+/-- a configuration whose replies can be built: the SSID fits its length byte, the version
+numbers fit 16 bits, the structure version a byte -/
+def Buildable (cfg : Cfg) : Prop :=
+  cfg.net.wlan.ssid.length ≤ 255 ∧ cfg.ver.a < 65536 ∧ cfg.ver.b < 65536 ∧ cfg.ver.c < 65536 ∧
+    cfg.ver.structVersion < 256
+
+/-- **building a reply never raises** with the current encoders and a buildable configuration
+(C03.net_encode_ok, C03.version_encode_ok): every frame handled as a request by the
+controller's device completes — whatever its input bit says -/
+theorem request_never_raises (cfg : Cfg) (hb : Buildable cfg) (f : Frame)
+    (hc : f.controller = true) (hk : f.cls ≠ .data) : ok cfg f = true := by
+  obtain ⟨hs, ha, hbb, hcc, hv⟩ := hb
+  obtain ⟨m1, hm1⟩ := C03.net_encode_ok cfg.net hs
+  obtain ⟨m2, hm2⟩ := C03.version_encode_ok cfg.ver 86 ha hbb hcc hv (by omega)
+  have h86 : ownAddress.toNat = 86 := by rw [codes.2.2.2.2.2.1]; rfl
+  unfold ok handle
+  cases hcls : f.cls with
+  | data => exact absurd hcls hk
+  | pvReq => simp [hc, replyOf, hcls, h86, hm2]
+  | cdReq => simp [hc, replyOf, hcls, hm1]
+  | otherReq => simp [hc, replyOf, hcls]
+
+/-- … and when it does raise (a configuration that cannot be encoded — what the development
+build's version string did before fix 5104319) the failure is contained like any other: the
+frame's handling ends as `raised`, the request stays unanswered, nothing else changes
+(`conservation`, `no_consumer_dies`, `never_stalls` hold for every configuration). -/
+theorem unbuildable_reply_contained (cfg : Cfg) (f : Frame) (hc : f.controller = true) (hk : f.cls = .pvReq)
+    (hm : Version.encode cfg.ver 86 = none) : handle cfg f = .raised ∧ repliesOf cfg f = [] := by
+  have h86 : ownAddress.toNat = 86 := by rw [codes.2.2.2.2.2.1]; rfl
+  have h1 : handle cfg f = .raised := by simp [handle, hc, hk, replyOf, h86, hm]
+  exact ⟨h1, by simp [repliesOf, h1]⟩
 
 /-- **requests answered**: at quiescence the replies queued for writing are — as a multiset —
-exactly one `respOf` per received request whose handling did not raise; nothing else. -/
-theorem requests_answered (n cfg : Nat) (ms : List Mv)
+exactly the replies of the received frames whose handling did not raise; nothing else. -/
+theorem requests_answered (n : Nat) (cfg : Cfg) (ms : List Mv)
     (hq : quiescent (run true cfg (init n) ms) = true) :
-    (run true cfg (init n) ms).responses.Perm
-      (((arrivals ms).filter ok).flatMap fun f => (respOf cfg f).toList) := by
+    (run true cfg (init n) ms).responses.Perm (((arrivals ms).filter (ok cfg)).flatMap (repliesOf cfg)) := by
   have h := inv_run n cfg [] (init n) ms (inv_init n cfg)
   rw [h.resp]
-  exact ((finished_perm hq).filter ok).flatMap_right _
+  exact ((finished_perm hq).filter (ok cfg)).flatMap_right _
 
-/-- **balanced**: at quiescence the read queue's unfinished count is 0 — `Queue.join()` in
-`shutdown()` returns -/
-theorem balanced_at_quiescence (n cfg : Nat) (ms : List Mv)
+/-- **balanced**: at quiescence the read queue's unfinished count is 0 — `Queue.join()` on the
+read queue in `shutdown()` returns -/
+theorem balanced_at_quiescence (n : Nat) (cfg : Cfg) (ms : List Mv)
     (hq : quiescent (run true cfg (init n) ms) = true) :
     (run true cfg (init n) ms).unfinished = 0 := by
   obtain ⟨_, hb, _, _⟩ := conservation n cfg ms
@@ -113,42 +163,52 @@ theorem balanced_at_quiescence (n cfg : Nat) (ms : List Mv)
 
 /-- **never stalls**: with at least one consumer, after ANY schedule the consumers alone can
 bring the pipeline to quiescence — no sequence of frames wedges it. -/
-theorem never_stalls (n cfg : Nat) (hn : 0 < n) (ms : List Mv) :
+theorem never_stalls (n : Nat) (cfg : Cfg) (hn : 0 < n) (ms : List Mv) :
     ∃ more, arrivals more = [] ∧ quiescent (run true cfg (init n) (ms ++ more)) = true := by
   have h := inv_run n cfg [] (init n) ms (inv_init n cfg)
   obtain ⟨more, hi, hqz⟩ := can_quiesce n cfg hn _ _ _ (Nat.le_refl _) h
   exact ⟨more, hi, by rw [run_append]; exact hqz⟩
 
-/-- replies of the machine = replies the statement demands, when no controller request raises -/
-theorem replies_eq_demanded (cfg : Nat) (frames : List Frame)
-    (hreq : ∀ f ∈ frames, f.raises = true → demanded cfg f = none) :
-    ((frames.filter ok).flatMap fun f => (respOf cfg f).toList) = frames.filterMap (demanded cfg) := by
-  have same : (fun f => (respOf cfg f).toList) = fun f => (demanded cfg f).toList := by
-    funext g
-    unfold respOf demanded
-    cases g.controller <;> cases g.cls <;> rfl
-  rw [same]
-  induction frames with
-  | nil => rfl
-  | cons f fs ih =>
-    have ih' := ih (fun g hg => hreq g (List.mem_cons_of_mem _ hg))
-    cases hr : f.raises with
-    | true =>
-      have := hreq f (List.mem_cons_self ..) hr
-      simp [ok, hr, this, ih']
-    | false =>
-      simp only [List.filter_cons, ok, hr, Bool.not_false, if_true, List.flatMap_cons, List.filterMap_cons, ih']
-      cases demanded cfg f <;> simp
+/-- what the statement's `describe` sees in the machine's replies is what the statement
+`demanded` — for a buildable configuration whose encryption kind is in the table.  The
+device-available clause goes through `C03.net_roundtrip`: the DECODED payload is the configured
+network information. -/
+theorem replies_as_demanded (cfg : Cfg) (hb : Buildable cfg) (henc : Net.encOk cfg.net.wlan.encryption = true)
+    (f : Frame) : (if ok cfg f then (repliesOf cfg f).map (describe cfg.net) else []) = (demanded f).toList := by
+  obtain ⟨hs, ha, hbb, hcc, hv⟩ := hb
+  obtain ⟨m1, hm1⟩ := C03.net_encode_ok cfg.net hs
+  obtain ⟨m2, hm2⟩ := C03.version_encode_ok cfg.ver 86 ha hbb hcc hv (by omega)
+  have hdec : Net.decode m1 = some cfg.net := C03.net_roundtrip cfg.net hm1 henc
+  cases hc : f.controller with
+  | false =>
+    have : handle cfg f = if f.raises then .raised else .done [] := by simp [handle, hc]
+    cases hr : f.raises <;> simp [ok, repliesOf, this, hr, demanded, hc]
+  | true =>
+    cases hcls : f.cls with
+    | data =>
+      have : handle cfg f = if f.raises then .raised else .done [] := by simp [handle, hc, hcls]
+      cases hr : f.raises <;> simp [ok, repliesOf, this, hr, demanded, hc, hcls]
+    | otherReq =>
+      have : handle cfg f = .done [] := by simp [handle, hc, hcls, replyOf]
+      simp [ok, repliesOf, this, demanded, hc, hcls]
+    | cdReq =>
+      have h1 := (reply_bytes_check_device cfg f m1 hc hcls hm1).1
+      simp [ok, repliesOf, h1, demanded, hc, hcls, describe, hdec]
+    | pvReq =>
+      have h1 := (reply_bytes_program_version cfg f m2 hc hcls hm2).1
+      simp [ok, repliesOf, h1, demanded, hc, hcls, describe]
 
-/-- **C09.holds**: for every number of consumers, every received sequence with distinct ids in
-which no controller request raises, and every schedule that ends in quiescence, what the
-machine shows satisfies the statement's predicate `spec` (the predicate the driver evaluates
-on what the implementation showed). -/
-theorem holds (n cfg : Nat) (ms : List Mv)
+/-- **C09.holds**: for every number of consumers, every buildable configuration, every received
+sequence with distinct ids (requests carrying no data items: `Request.decode_message` is `{}`)
+and every schedule that ends in quiescence, what the machine shows satisfies the statement's
+predicate `spec` — the predicate the driver evaluates on what the implementation showed.
+There is no hypothesis about which frames raise. -/
+theorem holds (n : Nat) (cfg : Cfg) (ms : List Mv)
     (hq : quiescent (run true cfg (init n) ms) = true)
     (hid : ((arrivals ms).map (·.id)).Nodup)
-    (hreq : ∀ f ∈ arrivals ms, f.raises = true → demanded cfg f = none) :
-    spec n cfg (arrivals ms) (Obs.ofSnap (observe (arrivals ms) (run true cfg (init n) ms))) = true := by
+    (hb : Buildable cfg) (henc : Net.encOk cfg.net.wlan.encryption = true)
+    (hitems : ∀ f ∈ arrivals ms, f.cls ≠ .data → f.items = 0) :
+    spec n cfg.net (arrivals ms) (Obs.ofSnap (observe (arrivals ms) (run true cfg (init n) ms))) = true := by
   have hcount := delivered_count n cfg ms hq hid
   have hdel := delivered_exactly_once n cfg ms hq
   have hresp := requests_answered n cfg ms hq
@@ -156,6 +216,13 @@ theorem holds (n cfg : Nat) (ms : List Mv)
   have halive := no_consumer_dies n cfg ms
   generalize run true cfg (init n) ms = s at *
   generalize arrivals ms = frames at *
+  -- a frame with data items is a data frame, so it is handled iff its input bit allows
+  have ok_of_items : ∀ f ∈ frames, 0 < f.items → ok cfg f = !f.raises := by
+    intro f hf hi
+    apply ok_data
+    cases hcls : f.cls with
+    | data => rfl
+    | _ => have := hitems f hf (by simp [hcls]); omega
   have visible : ∀ f ∈ frames, 0 < f.items →
       (frames.any fun g => g.id == f.id && decide (0 < g.items)) = true := by
     intro f hf hi
@@ -173,7 +240,7 @@ theorem holds (n cfg : Nat) (ms : List Mv)
       · simp [hi]
       · have hpos : 0 < f.items := Nat.pos_of_ne_zero hi
         have := hcount f hf
-        simp only [hr] at this
+        rw [ok_of_items f hf hpos, hr] at this
         simp only [Bool.false_or, Bool.or_eq_true, beq_iff_eq]
         right
         rw [List.count_filter (p := fun i => frames.any fun g => g.id == i && decide (0 < g.items))
@@ -182,20 +249,43 @@ theorem holds (n cfg : Nat) (ms : List Mv)
   · intro i hi
     obtain ⟨hi1, hi2⟩ := List.mem_filter.mp hi
     rw [List.mem_reverse] at hi1
-    have : i ∈ (frames.filter ok).map (·.id) := hdel.mem_iff.mp hi1
+    have : i ∈ (frames.filter (ok cfg)).map (·.id) := hdel.mem_iff.mp hi1
     obtain ⟨f, hf, rfl⟩ := List.mem_map.mp this
     obtain ⟨hf1, hf2⟩ := List.mem_filter.mp hf
     obtain ⟨g, hg, hgp⟩ := List.any_eq_true.mp hi2
     simp only [Bool.and_eq_true, beq_iff_eq, decide_eq_true_eq] at hgp
     have : g = f := eq_of_id_eq hid hf1 hg hgp.1
     subst this
-    exact List.any_eq_true.mpr ⟨g, hg, by simp [hgp.2]; simpa [ok] using hf2⟩
-  · rw [List.isPerm_iff, ← replies_eq_demanded cfg frames hreq]
-    exact (List.reverse_perm _).trans hresp
+    have hnr : g.raises = false := by
+      have := ok_of_items g hg hgp.2
+      rw [hf2] at this; simpa using this.symm
+    exact List.any_eq_true.mpr ⟨g, hg, by simp [hgp.2, hnr]⟩
+  · rw [List.isPerm_iff]
+    have h1 : (s.responses.reverse.map (describe cfg.net)).Perm
+        (((frames.filter (ok cfg)).flatMap (repliesOf cfg)).map (describe cfg.net)) :=
+      ((List.reverse_perm _).trans hresp).map _
+    refine h1.trans (List.Perm.of_eq ?_)
+    clear h1 hresp hdel hcount ok_of_items visible hitems hid
+    induction frames with
+    | nil => rfl
+    | cons f fs ih =>
+      have := replies_as_demanded cfg hb henc f
+      cases hok : ok cfg f with
+      | true =>
+        simp only [hok, if_true] at this
+        simp only [List.filter_cons, hok, if_true, List.flatMap_cons, List.map_append, this, ih, List.filterMap_cons]
+        cases demanded f <;> simp
+      | false =>
+        simp only [hok] at this
+        have hd : demanded f = none := by
+          cases h : demanded f with
+          | none => rfl
+          | some d => rw [h] at this; simp at this
+        simp [List.filter_cons, hok, List.filterMap_cons, hd, ih]
 
 /-- the driver's replay of a harness run is a run of the machine: draining is a schedule of
 consumer moves … -/
-theorem drain_is_run (c : Bool) (cfg : Nat) (fuel : Nat) (s : St) (acc : List Mv) :
+theorem drain_is_run (c : Bool) (cfg : Cfg) (fuel : Nat) (s : St) (acc : List Mv) :
     ∃ ms, arrivals ms = [] ∧ (drain c cfg fuel s acc).1 = run c cfg s ms ∧
       (drain c cfg fuel s acc).2 = ms.reverse ++ acc := by
   induction fuel generalizing s acc with
@@ -214,7 +304,7 @@ theorem drain_is_run (c : Bool) (cfg : Nat) (fuel : Nat) (s : St) (acc : List Mv
         · exact ⟨[], rfl, rfl, rfl⟩
 
 /-- … and a batch is the schedule it reports: the batch's frames arrive, then consumer moves -/
-theorem batch_is_run (c : Bool) (cfg : Nat) (s : St) (fs : List Frame) :
+theorem batch_is_run (c : Bool) (cfg : Cfg) (s : St) (fs : List Frame) :
     (batch c cfg s fs).1 = run c cfg s (batch c cfg s fs).2 ∧ arrivals (batch c cfg s fs).2 = fs := by
   have arr : ∀ (fs : List Frame) (s : St),
       fs.foldl (fun s f => step c cfg s (.arrive f)) s = run c cfg s (fs.map .arrive) := by
@@ -236,7 +326,7 @@ theorem batch_is_run (c : Bool) (cfg : Nat) (s : St) (fs : List Frame) :
   simp [run_append, arr, arrivals_append, arrmap, h1]
 
 /-- … also when the batch arrives while the consumers are held up: arrivals, then takes -/
-theorem hold_is_run (c : Bool) (cfg : Nat) (s : St) (fs : List Frame) :
+theorem hold_is_run (c : Bool) (cfg : Cfg) (s : St) (fs : List Frame) :
     (holdBatch c cfg s fs).1 = run c cfg s (holdBatch c cfg s fs).2 ∧ arrivals (holdBatch c cfg s fs).2 = fs := by
   have arr : ∀ (fs : List Frame) (s : St),
       fs.foldl (fun s f => step c cfg s (.arrive f)) s = run c cfg s (fs.map .arrive) := by
@@ -269,6 +359,12 @@ theorem hold_is_run (c : Bool) (cfg : Nat) (s : St) (fs : List Frame) :
   rw [h2, h3]
   simp [run_append, arr, arrivals_append, arrmap, h1]
 
+/-- a concrete configuration: no ethernet, wireless "tests" with WPA2, version 0.1.0 -/
+def exampleCfg : Cfg :=
+  { net := ⟨⟨⟨0, 0, 0, 0⟩, ⟨255, 255, 255, 0⟩, ⟨0, 0, 0, 0⟩, false⟩,
+            ⟨⟨10, 0, 0, 5⟩, ⟨255, 0, 0, 0⟩, ⟨10, 0, 0, 1⟩, true, [0x74, 0x65, 0x73, 0x74, 0x73], 4, 63⟩, true⟩
+    ver := ⟨0, 1, 0, [0xff, 0xff], 5, [0x7a, 0], [0, 0, 0]⟩ }
+
 /-- the model can tell the difference: the SAME machine without containment (`run false`, the
 consumer loop before fix e8d48dc) with three consumers is wedged for good by three raising
 frames — all consumers dead, four frames unacknowledged, the valid frame never delivered, and
@@ -276,50 +372,61 @@ no consumer move changes anything any more. -/
 theorem uncontained_counterexample :
     let bad (i : Nat) : Frame := ⟨i, .data, 69, true, 0, true⟩
     let good : Frame := ⟨3, .data, 69, true, 1, false⟩
-    let s := run false 1 (init 3)
+    let s := run false exampleCfg (init 3)
       [.arrive (bad 0), .arrive (bad 1), .arrive (bad 2), .arrive good,
        .take, .take, .take, .finish (bad 0), .finish (bad 1), .finish (bad 2)]
     s.alive = 0 ∧ s.unfinished = 4 ∧ s.queue = [good] ∧ s.delivered = [] ∧
-      step false 1 s .take = s ∧ ∀ f, step false 1 s (.finish f) = s := by
+      step false exampleCfg s .take = s ∧ ∀ f, step false exampleCfg s (.finish f) = s := by
   refine ⟨by decide, by decide, by decide, by decide, by decide, ?_⟩
   intro f
-  simp [run, step, init]
+  simp [run, step, init, handle]
 
 /-- non-vacuity: the same frames and schedule on the contained machine, continued by one take
 and one finish, end quiescent with the valid frame delivered, three consumers alive, balance 0 -/
 example :
     let bad (i : Nat) : Frame := ⟨i, .data, 69, true, 0, true⟩
     let good : Frame := ⟨3, .data, 69, true, 1, false⟩
-    let s := run true 1 (init 3)
+    let s := run true exampleCfg (init 3)
       [.arrive (bad 0), .arrive (bad 1), .arrive (bad 2), .arrive good,
        .take, .take, .take, .finish (bad 0), .finish (bad 1), .finish (bad 2), .take, .finish good]
     quiescent s = true ∧ s.alive = 3 ∧ s.unfinished = 0 ∧ s.delivered = [3] := by decide
 
 /-- non-vacuity of `holds` / the replay: five raising frames (more than the two consumers), a
 check-device and a program-version request from the controller (69) and a valid frame, in two
-batches -/
+batches: the last snapshot shows the two reply frames, byte for byte, and passes `spec` -/
 example :
     let fs : List Frame := [⟨0, .data, 69, true, 0, true⟩, ⟨1, .data, 69, true, 0, true⟩, ⟨2, .data, 69, true, 0, true⟩,
       ⟨3, .cdReq, 69, true, 0, false⟩, ⟨4, .data, 69, true, 0, true⟩, ⟨5, .data, 69, true, 0, true⟩]
     let gs : List Frame := [⟨6, .pvReq, 69, true, 0, false⟩, ⟨7, .data, 69, true, 2, false⟩]
-    (replay true 7 2 [fs, gs]).getLast? =
-      some { delivered := [7], responses := [⟨.deviceAvailable, 69, 7⟩, ⟨.programVersion, 69, 0⟩],
-             unfinished := 0, alive := 2 } ∧
-    ((replay true 7 2 [fs, gs]).getLast?.map fun o => spec 2 7 (fs ++ gs) (Obs.ofSnap o)) = some true := by
-  decide
+    ((replay true exampleCfg 2 [fs, gs]).getLast?.map fun o => (o.delivered, o.responses.map (·.kind), o.unfinished, o.alive)) =
+      some ([7], [176, 192], 0, 2) ∧
+    ((replay true exampleCfg 2 [fs, gs]).getLast?.map fun o => o.responses.map (·.payload)) =
+      some [[1, 0, 0, 0, 0, 255, 255, 255, 0, 0, 0, 0, 0, 0, 10, 0, 0, 5, 255, 0, 0, 0, 10, 0, 0, 1, 1, 4, 63, 1,
+             0, 0, 0, 0, 5, 0x74, 0x65, 0x73, 0x74, 0x73],
+            [0xff, 0xff, 5, 0x7a, 0, 0, 0, 0, 0, 0, 1, 0, 0, 0, 86]] ∧
+    ((replay true exampleCfg 2 [fs, gs]).getLast?.map fun o => spec 2 exampleCfg.net (fs ++ gs) (Obs.ofSnap o)) = some true := by
+  decide +kernel
+
+/-- a version that does not fit (what D9 was): the program-version request stays unanswered —
+contained, the pipeline goes on, but the statement's predicate fails -/
+example :
+    let cfg : Cfg := { exampleCfg with ver := { exampleCfg.ver with c := 70000 } }
+    let fs : List Frame := [⟨0, .pvReq, 69, true, 0, false⟩, ⟨1, .data, 69, true, 1, false⟩]
+    ((replay true cfg 2 [fs]).getLast?.map fun o => (o.delivered, o.responses.length, o.unfinished, o.alive)) = some ([1], 0, 0, 2) ∧
+    ((replay true cfg 2 [fs]).getLast?.map fun o => spec 2 cfg.net fs (Obs.ofSnap o)) = some false := by
+  decide +kernel
 
 /-- a held batch: five frames arrive while the two consumers are held up in device creation —
 two in hand, three queued, five unacknowledged; the next (empty) batch handles them all -/
 example :
     let fs : List Frame := [⟨0, .data, 69, true, 0, true⟩, ⟨1, .data, 69, true, 0, true⟩, ⟨2, .data, 69, true, 0, true⟩,
       ⟨3, .cdReq, 69, true, 0, false⟩, ⟨4, .data, 69, true, 1, false⟩]
-    replayH true 7 2 [(true, fs), (false, [])] =
-      [{ delivered := [], responses := [], unfinished := 5, alive := 2 },
-       { delivered := [4], responses := [⟨.deviceAvailable, 69, 7⟩], unfinished := 0, alive := 2 }] := by decide
+    (replayH true exampleCfg 2 [(true, fs), (false, [])]).map (fun o => (o.delivered, o.responses.length, o.unfinished, o.alive)) =
+      [([], 0, 5, 2), ([4], 1, 0, 2)] := by decide +kernel
 
 /-- the predicate is not trivially true: the uncontained replay of the same input fails it -/
 example :
     let fs : List Frame := [⟨0, .data, 69, true, 0, true⟩, ⟨1, .data, 69, true, 0, true⟩, ⟨2, .data, 69, true, 2, false⟩]
-    ((replay false 7 2 [fs]).getLast?.map fun o => spec 2 7 fs (Obs.ofSnap o)) = some false := by decide
+    ((replay false exampleCfg 2 [fs]).getLast?.map fun o => spec 2 exampleCfg.net fs (Obs.ofSnap o)) = some false := by decide
 
 end PlumVerif.C09
